@@ -408,3 +408,110 @@ Example f3_guard_oob :
   ibd_records (mkCase 2 [0; 1] [1; 0] [] (GWithin [0; 2]) 0 None) = OOB /\
   ibd_records (mkCase 2 [0; 1] [1; 0] [] (GWithin [0; 3]) 0 None) = Err ERR_NODE_OUT_OF_BOUNDS.
 Proof. vm_compute. split; reflexivity. Qed.
+
+(* ---- every record is a non-empty interval inside [0, L] between two different nodes -------- *)
+
+Definition seg_in (L : Z) (s : seg) : Prop := 0 <= seg_left s /\ seg_right s <= L.
+Definition rec_wf (L : Z) (r : record) : Prop :=
+  0 <= seg_left (rec_seg r) < seg_right (rec_seg r) /\ seg_right (rec_seg r) <= L /\ rec_a r <> rec_b r.
+
+Lemma get_Forall {A} (P : A -> Prop) l i a : Forall P l -> get l i = Ok a -> P a.
+Proof.
+  unfold get. destruct (i <? 0); [discriminate|]. intros F H.
+  destruct (nth_error l (Z.to_nat i)) as [b|] eqn:E; [|discriminate]. inversion H; subst.
+  rewrite Forall_forall in F. apply F. eapply nth_error_In; eauto.
+Qed.
+
+Lemma set_nat_Forall {A} (P : A -> Prop) l : forall n a l', Forall P l -> P a -> set_nat l n a = Some l' -> Forall P l'.
+Proof.
+  induction l as [|h t IH]; intros [|n] a l' F Pa H; simpl in H; try discriminate.
+  - inversion H; subst. inversion F; subst. constructor; assumption.
+  - destruct (set_nat t n a) as [t'|] eqn:E; [|discriminate]. inversion H; subst.
+    inversion F as [|? ? Ph Ft]; subst. constructor; [exact Ph | exact (IH n a t' Ft Pa E)].
+Qed.
+
+Lemma set_Forall {A} (P : A -> Prop) l i a l' : Forall P l -> P a -> set l i a = Ok l' -> Forall P l'.
+Proof.
+  unfold set. destruct (i <? 0); [discriminate|]. intros F Pa H.
+  destruct (set_nat l (Z.to_nat i) a) as [t|] eqn:E; [|discriminate]. inversion H; subst.
+  eapply set_nat_Forall; eauto.
+Qed.
+
+Lemma queue_in L P e cs : Forall (seg_in L) cs -> Forall (seg_in L) (queue_of (p_ms2 P) e cs).
+Proof.
+  unfold queue_of. induction 1 as [|s t Hs Ht IH]; cbn [flat_map]; [constructor|].
+  apply Forall_app. split; [|exact IH]. unfold enqueue.
+  destruct (p_ms2 P <? _); constructor; [|constructor].
+  unfold seg_in, seg_left, seg_right in *; cbn [fst snd]. lia.
+Qed.
+
+Lemma passes_true P a b l r : passes P a b l r = Ok true -> a <> b /\ (0 <= p_ms2 P -> l < r).
+Proof.
+  unfold passes. destruct (a =? b) eqn:E; [discriminate|]. apply Z.eqb_neq in E.
+  destruct (2 * (r - l) <=? p_ms2 P) eqn:E2; [discriminate|]. apply Z.leb_gt in E2.
+  intros _. split; [exact E | lia].
+Qed.
+
+Lemma record_ibd_wf L P parent q : 0 <= p_ms2 P -> Forall (seg_in L) q ->
+  forall ps x, Forall (seg_in L) ps -> record_ibd P parent ps q = Ok x -> Forall (rec_wf L) x.
+Proof.
+  intros Hms Fq. induction ps as [|s0 t IH]; intros x Fp H; simpl in H.
+  - inversion H; constructor.
+  - destruct (record_inner P parent s0 q) as [x1| | |] eqn:E1; simpl in H; try discriminate.
+    destruct (record_ibd P parent t q) as [x2| | |] eqn:E2; simpl in H; try discriminate.
+    inversion H; subst; clear H. inversion Fp as [|? ? Hs0 Ft]; subst.
+    apply Forall_app. split; [|apply IH; auto].
+    clear IH E2. revert x1 E1. induction Fq as [|s1 q' Hs1 Fq' IHq]; intros x1 E1; simpl in E1.
+    + inversion E1; constructor.
+    + destruct (record_one P parent s0 s1) as [y1| | |] eqn:R1; simpl in E1; try discriminate.
+      destruct (record_inner P parent s0 q') as [y2| | |] eqn:R2; simpl in E1; try discriminate.
+      inversion E1; subst; clear E1. apply Forall_app. split; [|apply IHq; reflexivity].
+      unfold record_one in R1.
+      destruct (passes P (seg_node s0) (seg_node s1) _ _) as [bo| | |] eqn:Ep; simpl in R1; try discriminate.
+      inversion R1; subst. destruct bo; [|constructor]. constructor; [|constructor].
+      destruct (passes_true _ _ _ _ _ Ep) as [Hne Hlt]. specialize (Hlt Hms).
+      destruct Hs0 as [H0a H0b]. destruct Hs1 as [H1a H1b].
+      unfold seg_left, seg_right in H0a, H0b, H1a, H1b.
+      unfold rec_wf, rec_seg, rec_a, rec_b, seg_left, seg_right; cbn [fst snd].
+      repeat split; try lia; assumption.
+Qed.
+
+Lemma run_edges_wf L P : 0 <= p_ms2 P -> forall es A A' out,
+  Forall (Forall (seg_in L)) A -> run_edges P es A = Ok (A', out) -> Forall (rec_wf L) out.
+Proof.
+  intros Hms. induction es as [|e t IH]; intros A A' out FA H; simpl in H.
+  - inversion H; constructor.
+  - destruct (get (p_times P) (eparent e)) as [tm| | |]; simpl in H; try discriminate.
+    destruct (too_old (p_mt2 P) tm); [inversion H; constructor|].
+    destruct (step P e A) as [[A1 r1]| | |] eqn:Es; simpl in H; try discriminate.
+    destruct (run_edges P t A1) as [[A2 r2]| | |] eqn:Er; simpl in H; try discriminate.
+    inversion H; subst; clear H. unfold step in Es.
+    destruct (get A (echild e)) as [cs| | |] eqn:Ec; simpl in Es; try discriminate.
+    destruct (get A (eparent e)) as [ps| | |] eqn:Ep; simpl in Es; try discriminate.
+    destruct (record_ibd P (eparent e) ps _) as [r0| | |] eqn:Err; simpl in Es; try discriminate.
+    destruct (set A (eparent e) _) as [As| | |] eqn:Eset; simpl in Es; try discriminate.
+    inversion Es; subst; clear Es.
+    pose proof (get_Forall _ _ _ _ FA Ec) as Fc. pose proof (get_Forall _ _ _ _ FA Ep) as Fp.
+    pose proof (queue_in L P e cs Fc) as Fq.
+    apply Forall_app. split.
+    + exact (record_ibd_wf L P (eparent e) _ Hms Fq ps _ Fp Err).
+    + eapply IH; [|exact Er]. eapply set_Forall; [exact FA | | exact Eset]. apply Forall_app. split; assumption.
+Qed.
+
+Lemma init_amap_in L ssid : 0 <= L -> Forall (Forall (seg_in L)) (init_amap L ssid).
+Proof.
+  intros HL. unfold init_amap. apply Forall_forall. intros l Hl. apply in_map_iff in Hl as ([u v] & <- & _).
+  cbn [fst snd]. destruct (negb (v =? -1)); constructor; [|constructor].
+  unfold seg_in, seg_left, seg_right; cbn [fst snd]. lia.
+Qed.
+
+Lemma records_wellformed_lemma :
+  forall (c : case) (out : list record), 0 <= cL c -> ibd_records c = Ok out -> Forall (rec_wf (cL c)) out.
+Proof.
+  intros c out HL H. unfold ibd_records in H.
+  destruct ((cminspan2 c <? 0) || neg_opt (cmaxtime2 c)) eqn:Eb; [discriminate|].
+  apply orb_false_iff in Eb as [Eb _]. apply Z.ltb_ge in Eb.
+  destruct (init_ssid c) as [ssid| | |]; simpl in H; try discriminate.
+  destruct (run_edges _ (cedges c) (init_amap (cL c) ssid)) as [[A' o]| | |] eqn:E; simpl in H; try discriminate.
+  inversion H; subst. eapply (run_edges_wf (cL c)); [|apply init_amap_in; exact HL | exact E]. exact Eb.
+Qed.
